@@ -17,7 +17,7 @@ CONSTANTS
   MaxBlocks = 2
   MaxSteps = 4
   MaxBlockTxs = 1
-  MaxReorgDepth = 1
+  MaxReorgDepth = 0
   SimProfile = "mixed"
 VIEW View
 INVARIANTS PoolJointlyValid StemJointlyValid PoolMatureUnlocked NoUnderpaid NoOverweight AdmitMatureUnlocked MineableAccepted
